@@ -68,7 +68,7 @@ func ParsePem(data []byte) PemFile {
 		switch {
 		case b.Type == "CERTIFICATE" && p.Cert == nil:
 			p.Cert = b.Bytes
-		case b.Type == "CERTIFICATE REQUEST" && p.Csr == nil:
+		case (b.Type == "CERTIFICATE REQUEST" || b.Type == "NEW CERTIFICATE REQUEST") && p.Csr == nil: // RFC 7468: the second is the legacy label of the same thing
 			p.Csr = b.Bytes
 		case bytes.Contains([]byte(b.Type), []byte("PRIVATE KEY")) && p.Key == nil:
 			p.Key = b.Bytes
